@@ -107,6 +107,8 @@ inductive Ev
   | api (n inst : Nat) (k : ApiKind)
   | apiRet (n inst : Nat) (r : ApiRes)
   | status (inst state : Nat) (isLeader : Bool) (lid tok rev : Nat) (isLeader2 : Bool)
+  | observe (inst : Nat)     -- the library reports the duration of a term (Metrics.ObserveLeaderDuration): that term is being ended
+  | snap (inst state : Nat) (isLeader : Bool) (lid tok : Nat)   -- one Status() call made concurrently with whatever the library is doing
   | health (inst k : Nat) (res : Bool) (rem : Int)
   | conn (inst : Nat) (k : ConnKind)
   | crash (inst : Nat)
